@@ -242,3 +242,196 @@ def register(reg):
         loops={0: {"inv": PINV}},
         shards=8,
         props=["C13", "C18", "C03"])
+
+    # ------------------------------------------------------------------------------------------------
+    # MCS based method
+    FM = "synrbl/SynMCSImputer/mcs_based_method.py"
+    reg.specfun("ISCB", [STR], BOOL)   # is_carbon_balanced(reaction string)
+    reg.classdecl("CompoundSet", {})
+    reg.classdecl("MergeRuleRef", {"name": STR})
+    reg.classdecl("Compound", {"smiles": STR, "rules": List(Obj("MergeRuleRef"))})
+    reg.classdecl("Standardizer", {})
+    reg.contract(FM, "build_compounds", params={"data_dict": VAL}, returns=Obj("CompoundSet"), assumed=True,
+                 fresh_result=True, raises={"Exception": None},
+                 note="fragment preparation over RDKit objects; may raise; does not touch the reaction rows",
+                 props=["C02", "C03", "C11"])
+    reg.contract("synrbl/SynMCSImputer/merge.py", "merge", params={"compound_set": Obj("CompoundSet")},
+                 returns=Obj("Compound"), assumed=True, fresh_result=True, raises={"Exception": None},
+                 note="fragment merging (C09 covers it separately); may raise; does not touch the reaction rows",
+                 props=["C02", "C03", "C11"])
+    reg.contract("synrbl/SynChemImputer/molecule_standardizer.py", "Standardizer.__call__",
+                 params={"self": Obj("Standardizer"), "smiles": STR}, returns=STR, assumed=True,
+                 raises={"Exception": None},
+                 note="MoleculeStandardizer.__call__: a string to string function that may raise (C20 covers it separately)",
+                 props=["C02", "C03", "C11"])
+    reg.contract("synrbl/SynMCSImputer/utils.py", "is_carbon_balanced", params={"reaction_smiles": STR}, returns=BOOL,
+                 assumed=True, raises={"Exception": None}, ensures=["result == ISCB(reaction_smiles)"],
+                 note="RDKit carbon count of both sides", props=["C02", "C03", "C11"])
+    reg.contract(
+        FM, "impute_reaction",
+        params={"reaction_dict": ROW, "reaction_col": STR, "issue_col": STR, "carbon_balance_col": STR,
+                "mcs_data_col": STR, "smiles_standardizer": List(Obj("Standardizer"))},
+        returns=Tuple(STR, List(STR)),
+        requires=["reaction_col in reaction_dict and is_str(reaction_dict[reaction_col])",
+                  "mcs_data_col in reaction_dict and carbon_balance_col in reaction_dict"],
+        raises={"Exception": None},
+        ensures=[
+            # only ever appends one dot-joined completion to the reaction it was given [C02]
+            "prefixof(as_str(reaction_dict[reaction_col]) + '.', result[0])",
+            # refuses rows that carry an issue or lack carbon on the reactant side [C03]
+            "not (issue_col in reaction_dict) or reaction_dict[issue_col] == ''",
+            "reaction_dict[carbon_balance_col] == 'products' or reaction_dict[carbon_balance_col] == 'balanced'",
+            "ISCB(result[0])",
+        ],
+        modifies=[],
+        locals_types={"rules": List(STR)},
+        props=["C02", "C03", "C11"])
+
+    reg.classdecl("MCSBasedMethod", {"reaction_col": STR, "output_col": List(STR), "mcs_data_col": STR, "issue_col": STR,
+                                     "rules_col": STR, "carbon_balance_col": STR,
+                                     "smiles_standardizer": List(Obj("Standardizer"))})
+    reg.contract("rdkit", "BlockLogs", params={}, returns=VAL, assumed=True, note="RDKit log silencer", props=[])
+    MC = ["self.reaction_col", "self.mcs_data_col", "self.issue_col", "self.rules_col", "self.carbon_balance_col"]
+    mdistinct = " and ".join("%s != %s" % (a, b) for i, a in enumerate(MC) for b in MC[i + 1:])
+    R = "reactions[j]"
+    TRIED = "(old(self.mcs_data_col in {R}) and not is_none(old({R}[self.mcs_data_col])))".format(R=R)
+    MPOST = [
+        # rows without search data are not touched [C01 frame, C03]
+        "implies(not {T}, same_map({R}, old(mapof({R}))))".format(T=TRIED, R=R),
+        # a tried row either keeps its reaction and gets the failure text as issue, or gets one appended completion
+        "implies({T}, forall(STR, lambda k: implies(k != self.reaction_col and k != self.rules_col and k != self.issue_col, "
+        "{R}[k] == old({R}[k]) and (k in {R}) == old(k in {R}))))".format(T=TRIED, R=R),
+        "implies({T}, ({R}[self.reaction_col] == old({R}[self.reaction_col]) and self.issue_col in {R} and is_str({R}[self.issue_col]) "
+        "and {R}[self.rules_col] == old({R}[self.rules_col]) and (self.rules_col in {R}) == old(self.rules_col in {R})) "
+        "or (is_str({R}[self.reaction_col]) and prefixof(as_str(old({R}[self.reaction_col])) + '.', as_str({R}[self.reaction_col])) "
+        "and ISCB(as_str({R}[self.reaction_col])) "
+        "and {R}[self.issue_col] == old({R}[self.issue_col]) and (self.issue_col in {R}) == old(self.issue_col in {R}) "
+        "and (not old(self.issue_col in {R}) or old({R}[self.issue_col]) == '') "
+        "and (old({R}[self.carbon_balance_col]) == 'products' or old({R}[self.carbon_balance_col]) == 'balanced')))".format(T=TRIED, R=R),
+    ]
+    reg.contract(
+        FM, "MCSBasedMethod.run",
+        params={"self": Obj("MCSBasedMethod"), "reactions": ROWS, "stats": Ty("opt", COMP)}, returns=ROWS,
+        requires=["distinct_rows(reactions)", mdistinct,
+                  "len(self.output_col) == 1 and self.output_col[0] == self.reaction_col",
+                  "forall(range(0, len(reactions)), lambda j: implies(self.mcs_data_col in {R} and not is_none({R}[self.mcs_data_col]), "
+                  "self.reaction_col in {R} and is_str({R}[self.reaction_col]) and self.carbon_balance_col in {R}))".format(R=R)],
+        ensures=["result is reactions and len(reactions) == old(len(reactions))",
+                 "forall(range(0, len(reactions)), lambda j: reactions[j] is old(reactions[j]))"]
+        + ["forall(range(0, len(reactions)), lambda j: %s)" % p for p in MPOST]
+        + ["implies(not is_none(stats), 'mcs_applied' in stats and 'mcs_solved' in stats and stats['mcs_solved'] <= stats['mcs_applied'] "
+           "and 0 <= stats['mcs_solved'] and stats['mcs_applied'] <= len(reactions))"],
+        modifies=["each(reactions)", "stats"],
+        loops={0: {"inv": [
+            "len(reactions) == old(len(reactions)) and forall(range(0, len(reactions)), lambda j: reactions[j] is old(reactions[j]))",
+            "forall(ROW, lambda r: implies(not in_list(r, reactions), same_map(r, old(mapof(r)))))",
+            "forall(range(_i, len(reactions)), lambda j: same_map({R}, old(mapof({R}))))".format(R=R),
+            "0 <= mcs_solved and mcs_solved <= mcs_applied and mcs_applied <= _i",
+            "implies(not is_none(stats), same_map(stats, old(mapof(stats))))",
+            "len(self.output_col) == 1 and self.output_col[0] == self.reaction_col",
+        ] + ["forall(range(0, _i), lambda j: %s)" % p for p in MPOST]},
+            1: {"inv": [
+                "len(reactions) == old(len(reactions)) and forall(range(0, len(reactions)), lambda j: reactions[j] is old(reactions[j]))",
+                "forall(ROW, lambda r: implies(not (r is reaction), same_map(r, at('loop1', mapof(r)))))",
+                "forall(STR, lambda k: implies(k != self.reaction_col, reaction[k] == at('loop1', reaction[k]) and (k in reaction) == at('loop1', k in reaction)))",
+                "implies(_i >= 1, reaction[self.reaction_col] == result)",
+                "implies(_i == 0, same_map(reaction, at('loop1', mapof(reaction))))",
+                "len(self.output_col) == 1 and self.output_col[0] == self.reaction_col",
+            ]}},
+        shards=8,
+        props=["C02", "C03", "C11", "C18", "C01"])
+
+    # ------------------------------------------------------------------------------------------------
+    # MCSSearch.find
+    FS = "synrbl/mcs_search.py"
+    reg.classdecl("MCSSearch", {"id_col": STR, "solved_col": STR, "mcs_data_col": STR, "issue_col": STR, "n_jobs": VAL,
+                                "conditions": VAL})
+    reg.contract("synrbl/SynMCSImputer/SubStructure/mcs_process.py", "ensemble_mcs",
+                 params={"data": ROWS, "conditions": VAL, "id_col": STR, "issue_col": STR, "n_jobs": VAL},
+                 returns=Tuple(ROWS, ROWS, ROWS), fresh_result=True, assumed=True,
+                 ensures=[("len(result[%d]) == len(data) and forall(range(0, len(data)), lambda j: fresh(result[%d][j]) and "
+                           "id_col in result[%d][j] and result[%d][j][id_col] == data[j][id_col] and issue_col in result[%d][j])") % (c, c, c, c, c)
+                          for c in range(3)],
+                 note="three search conditions; one fresh record per (condition, reaction) carrying the reaction's id and an issue key; "
+                      "input rows are not modified; no exception escapes (C11 checks this by fault injection)",
+                 props=["C03", "C06", "C10", "C11"])
+    reg.contract("synrbl/SynMCSImputer/SubStructure/extract_common_mcs.py", "ExtractMCS.get_largest_condition",
+                 params={"c0": ROWS, "c1": ROWS, "c2": ROWS}, returns=ROWS, fresh_result=True, assumed=True,
+                 ensures=["forall(range(0, len(result)), lambda k: in_list(result[k], c0) or in_list(result[k], c1) or in_list(result[k], c2))"],
+                 note="returns records taken from its arguments (the selection itself is verified separately for C10)",
+                 props=["C03", "C06", "C10", "C11"])
+    reg.contract("synrbl/SynMCSImputer/MissingGraph/find_graph_dict.py", "find_graph_dict",
+                 params={"mcs_dict": ROWS, "n_jobs": VAL}, returns=ROWS, fresh_result=True, assumed=True,
+                 ensures=["len(result) == len(mcs_dict)",
+                          "forall(range(0, len(result)), lambda j: fresh(result[j]))",
+                          "forall(range(0, len(result)), lambda a: forall(range(0, len(result)), lambda b: implies(a != b, not (result[a] is result[b]))))"],
+                 note="one fresh result record per input record, in order; input records are not modified; no exception escapes",
+                 props=["C03", "C06", "C10", "C11"])
+    SC = ["self.id_col", "self.solved_col", "self.mcs_data_col", "self.issue_col"]
+    sdistinct = " and ".join("%s != %s" % (a, b) for i, a in enumerate(SC) for b in SC[i + 1:])
+    R = "reactions[j]"
+    UNS = "(not truthy(old({R}[self.solved_col])))".format(R=R)
+    SPOST = [
+        "implies(not {U}, same_map({R}, old(mapof({R}))))".format(U=UNS, R=R),
+        "implies({U}, forall(STR, lambda k: implies(k != self.mcs_data_col and k != self.issue_col, {R}[k] == old({R}[k]) and (k in {R}) == old(k in {R}))))".format(U=UNS, R=R),
+        # every unsolved row leaves with an issue key; the attached search result carries the row's own id [C03, C06, C10]
+        "implies({U}, self.mcs_data_col in {R} and self.issue_col in {R} and "
+        "((is_none({R}[self.mcs_data_col]) and {R}[self.issue_col] == 'No MCS identified.') or "
+        "(is_ref({R}[self.mcs_data_col]) and let(as_row({R}[self.mcs_data_col]), lambda m: m[self.id_col] == {R}[self.id_col] and {R}[self.issue_col] == m[self.issue_col]))))".format(U=UNS, R=R),
+    ]
+    reg.contract(
+        FS, "MCSSearch.find",
+        params={"self": Obj("MCSSearch"), "reactions": ROWS}, returns=ROWS,
+        requires=["distinct_rows(reactions)", sdistinct,
+                  "forall(range(0, len(reactions)), lambda j: self.solved_col in {R} and self.id_col in {R})".format(R=R),
+                  "forall(range(0, len(reactions)), lambda a: forall(range(0, len(reactions)), lambda b: implies(a != b, not (reactions[a][self.id_col] == reactions[b][self.id_col]))))"],
+        ensures=["result is reactions and len(reactions) == old(len(reactions))",
+                 "forall(range(0, len(reactions)), lambda j: reactions[j] is old(reactions[j]))"]
+        + ["forall(range(0, len(reactions)), lambda j: %s)" % p for p in SPOST],
+        modifies=["each(reactions)", "*D.str.val.dom", "*D.str.val.val"],
+        locals_types={"id2idx_map": Dict(VAL, INT), "mcs_reactions": ROWS},
+        loops={
+            0: {"inv": [
+                "len(reactions) == old(len(reactions)) and forall(range(0, len(reactions)), lambda j: reactions[j] is old(reactions[j]))",
+                "forall(ROW, lambda r: implies(not in_list(r, reactions), same_map(r, old(mapof(r)))))",
+                "forall(range(_i, len(reactions)), lambda j: same_map({R}, old(mapof({R}))))".format(R=R),
+                "forall(range(0, _i), lambda j: implies(not {U}, same_map({R}, old(mapof({R})))))".format(U=UNS, R=R),
+                "forall(range(0, _i), lambda j: implies({U}, forall(STR, lambda k: implies(k != self.mcs_data_col and k != self.issue_col, {R}[k] == old({R}[k]) and (k in {R}) == old(k in {R}))) "
+                "and self.mcs_data_col in {R} and is_none({R}[self.mcs_data_col]) and self.issue_col in {R} and {R}[self.issue_col] == 'No MCS identified.' "
+                "and {R}[self.id_col] in id2idx_map and id2idx_map[{R}[self.id_col]] == j and in_list({R}, mcs_reactions)))".format(U=UNS, R=R),
+                "forall(VALUE, lambda v: implies(v in id2idx_map, 0 <= id2idx_map[v] and id2idx_map[v] < _i))",
+                "forall(VALUE, lambda v: implies(v in id2idx_map, reactions[id2idx_map[v]][self.id_col] == v))",
+                "forall(VALUE, lambda v: implies(v in id2idx_map, let(id2idx_map[v], lambda i: not truthy(old(reactions[i][self.solved_col])))))",
+                "forall(range(0, len(mcs_reactions)), lambda a: let(mcs_reactions[a], lambda r: r[self.id_col] in id2idx_map and reactions[id2idx_map[r[self.id_col]]] is r))",
+                "forall(range(0, len(mcs_reactions)), lambda a: let(mcs_reactions[a], lambda r: not truthy(old(r[self.solved_col]))))",
+                "forall(range(0, len(mcs_reactions)), lambda a: mcs_reactions[a][self.id_col] in id2idx_map)",
+                "fresh(mcs_reactions) and fresh(id2idx_map)",
+            ]},
+            1: {"inv": [
+                "len(reactions) == old(len(reactions)) and forall(range(0, len(reactions)), lambda j: reactions[j] is old(reactions[j]))",
+                "len(largest_conditions) == len(mcs_results)",
+                # records that are neither rows nor result records keep their content (in particular the condition records)
+                "forall(ROW, lambda r: implies(not in_list(r, reactions) and not in_list(r, mcs_results), same_map(r, at('loop1', mapof(r)))))",
+                "forall(range(0, len(mcs_results)), lambda k: not in_list(mcs_results[k], reactions) and not in_list(mcs_results[k], largest_conditions))",
+                "forall(range(0, len(mcs_results)), lambda a: forall(range(0, len(mcs_results)), lambda b: implies(a != b, not (mcs_results[a] is mcs_results[b]))))",
+                "forall(range(0, len(largest_conditions)), lambda k: not in_list(largest_conditions[k], mcs_results))",
+                "forall(range(0, len(largest_conditions)), lambda k: not in_list(largest_conditions[k], reactions) and self.id_col in largest_conditions[k] "
+                "and largest_conditions[k][self.id_col] in id2idx_map and self.issue_col in largest_conditions[k])",
+                "forall(VALUE, lambda v: implies(v in id2idx_map, 0 <= id2idx_map[v] and id2idx_map[v] < len(reactions) and "
+                "reactions[id2idx_map[v]][self.id_col] == v and let(id2idx_map[v], lambda i: not truthy(old(reactions[i][self.solved_col])))))",
+                "forall(range(0, len(reactions)), lambda j: implies(not {U}, same_map({R}, old(mapof({R})))))".format(U=UNS, R=R),
+                "forall(range(0, len(reactions)), lambda j: implies({U}, forall(STR, lambda k: implies(k != self.mcs_data_col and k != self.issue_col, {R}[k] == old({R}[k]) and (k in {R}) == old(k in {R})))))".format(U=UNS, R=R),
+                "forall(range(0, len(reactions)), lambda j: implies({U}, self.mcs_data_col in {R} and self.issue_col in {R} and "
+                "((is_none({R}[self.mcs_data_col]) and {R}[self.issue_col] == 'No MCS identified.') or "
+                "(is_ref({R}[self.mcs_data_col]) and let(as_row({R}[self.mcs_data_col]), lambda m: in_list(m, mcs_results) and index_in(m, mcs_results) < _i and "
+                "m[self.id_col] == {R}[self.id_col] and {R}[self.issue_col] == m[self.issue_col])))))".format(U=UNS, R=R),
+            ]},
+            2: {"inv": [
+                "forall(ROW, lambda r: implies(not (r is mcs_result), same_map(r, at('loop2', mapof(r)))))",
+                "forall(STR, lambda k: implies(done(k), k in mcs_result and mcs_result[k] == largest_condition[k]))",
+                "forall(STR, lambda k: implies(not done(k), mcs_result[k] == at('loop2', mcs_result[k]) and (k in mcs_result) == at('loop2', k in mcs_result)))",
+                "not (mcs_result is largest_condition)",
+            ]},
+        },
+        shards=8,
+        props=["C03", "C06", "C10", "C11", "C01", "C04"])
